@@ -11,6 +11,7 @@
 #include <cstring>
 #include <rime_api.h>
 #include <rime/common.h>
+#include <rime/verif_hooks.h>
 
 namespace rime {
 
@@ -135,6 +136,7 @@ T* MappedFile::Allocate(size_t count) {
   if (!IsOpen())
     return NULL;
 
+  RIME_VERIF_CRASHPOINT("mapped_file.allocate");
   size_t used_space = RIME_ALIGNED(size_, T);
   size_t required_space = sizeof(T) * count;
   size_t file_size = capacity();
